@@ -39,6 +39,13 @@ ToWiki(n) ==
 RECURSIVE SetToSeq(_)
 SetToSeq(S) == IF S = {} THEN <<>> ELSE LET x == CHOOSE x \in S : TRUE IN <<x>> \o SetToSeq(S \ {x})
 
+\* the html tag data the machine uses, printed once so that the harness can compare it with
+\* ctx.html_permitted_parents / ALLOWED_HTML_TAGS of the working tree
+HtmlTable == [t \in ModelledTags |->
+               [parents |-> SetToSeq(PermittedParents(t) \cap ModelledTags),
+                closenext |-> SetToSeq(CloseNext(t)), noend |-> NoEndTag(t)]]
+ASSUME PrintT(<<"HTMLTABLE", ToJson(HtmlTable)>>)
+
 VARIABLES doc
 Init == doc = <<>>
 Next == /\ Len(doc) < MaxLen
